@@ -18,8 +18,9 @@ def swapBackOK (x x' : Nat) : Bool := decide (x' ≤ x)
 /-- clauses 2 and 3: add (n, e) into a pool with depths (R, A) under ratio-shifting rate `r`, remove
     the units received, get (n', e') back.  Never more of both (beyond dust); a one-sided gain is at most what swapping
     the given-up amount of the other token would have bought fee-free at the pool ratio, plus dust
-    — unless that swap would take more than 90 % of a side. -/
-def addRemoveOK (r : Dec) (R A n e n' e' : Nat) : Bool :=
+    — unless that swap would take more than 90 % of a side.  `fSell` / `fBuy` = the swap-fee rates
+    configured for the native / the external token (what a swap selling that token is charged). -/
+def addRemoveOK (r fSell fBuy : Dec) (R A n e n' e' : Nat) : Bool :=
   let dn := dust R A n
   let de := dust A R e
   let notBoth := !(decide (n' > n + dn) && decide (e' > e + de))
@@ -27,14 +28,15 @@ def addRemoveOK (r : Dec) (R A n e n' e' : Nat) : Bool :=
   let gainN : Bool :=
     if n' > n + dn then
       let gave := e - e'
-      -- fee-free constant-product output of selling `gave` external, at the current ratio-shifting rate
-      let buys : Rat := Sif.Spec.C03.adjusted true A gave R r
+      -- what `MsgSwap` would pay for selling `gave` external: constant-product output at the current
+      -- ratio-shifting rate minus the fee rate configured for the external token
+      let buys : Rat := Sif.Spec.C03.adjusted true A gave R r * (1 - decToRat fBuy)
       decide (buys * 10 > (R : Rat) * 9) || decide (((n' - n : Nat) : Rat) ≤ buys + dn)
     else true
   let gainE : Bool :=
     if e' > e + de then
       let gave := n - n'
-      let buys : Rat := Sif.Spec.C03.adjusted false R gave A r
+      let buys : Rat := Sif.Spec.C03.adjusted false R gave A r * (1 - decToRat fSell)
       decide (buys * 10 > (A : Rat) * 9) || decide (((e' - e : Nat) : Rat) ≤ buys + de)
     else true
   notBoth && gainN && gainE
